@@ -8,8 +8,8 @@ import (
 	"runtime/debug"
 	"strconv"
 
-	"verif/internal/chk"
 	"verif/internal/checks"
+	"verif/internal/chk"
 	"verif/internal/run"
 )
 
